@@ -23,6 +23,10 @@ pub enum Op {
         /// pipe, two store actors) instead of calling the replicas directly
         #[serde(default)]
         net: bool,
+        /// with `net`: over a real QUIC connection between two endpoints on the loopback interface,
+        /// through `net::connect_and_sync` and `net::handle_connection`
+        #[serde(default)]
+        quic: bool,
     },
     /// remote insert into replica A (0), B (1) or both (2)
     Put { side: u8, a: usize, key: Vec<u8>, c: Option<usize>, ts: u64 },
@@ -50,6 +54,7 @@ impl C01 {
         nsid: iroh_docs::NamespaceId,
         nshex: &str,
         bob_initiates: bool,
+        quic: bool,
         mut lines: Vec<Line>,
     ) -> anyhow::Result<Vec<Line>> {
         use iroh_docs::{
@@ -57,7 +62,11 @@ impl C01 {
             net::{verif_codec::{run_alice, BobState}, AcceptOutcome},
         };
         iroh_docs::verif::set_clock_micros(Some(NOW));
-        let rt = tokio::runtime::Builder::new_current_thread().enable_time().build()?;
+        let rt = if quic {
+            tokio::runtime::Builder::new_multi_thread().worker_threads(2).enable_all().build()?
+        } else {
+            tokio::runtime::Builder::new_current_thread().enable_time().build()?
+        };
         let (fa, fb) = (sa.file, sb.file);
         // the initiator's store first
         let (init_store, resp_store, init_is_a) = if bob_initiates { (sb.store, sa.store, false) } else { (sa.store, sb.store, true) };
@@ -68,6 +77,42 @@ impl C01 {
         let res: anyhow::Result<(Result<(u64, u64), String>, Result<(u64, u64), String>)> = rt.block_on(async {
             h_init.open(nsid, OpenOpts::default().sync()).await?;
             h_resp.open(nsid, OpenOpts::default().sync()).await?;
+            if quic {
+                // two real endpoints; the initiator dials the acceptor's loopback address
+                use iroh::endpoint::{presets, Endpoint};
+                let bind = |seed: u8, alpn: bool| async move {
+                    let mut b = Endpoint::builder(presets::Minimal).secret_key(iroh::SecretKey::from_bytes(&[seed; 32]));
+                    if alpn {
+                        b = b.alpns(vec![iroh_docs::ALPN.to_vec()]);
+                    }
+                    b.bind().await.map_err(|e| anyhow::anyhow!("bind: {e}"))
+                };
+                let ep_init = bind(5, false).await?;
+                let ep_resp = bind(6, true).await?;
+                let port = ep_resp.bound_sockets().iter().find(|a| a.is_ipv4()).map(|a| a.port()).ok_or_else(|| anyhow::anyhow!("no ipv4 socket"))?;
+                let addr = iroh::EndpointAddr::new(ep_resp.id()).with_ip_addr(std::net::SocketAddr::from(([127, 0, 0, 1], port)));
+                let hr = h_resp.clone();
+                let ep_resp2 = ep_resp.clone();
+                let bob = async move {
+                    let incoming = ep_resp2.accept().await.ok_or_else(|| "endpoint closed".to_string())?;
+                    let conn = incoming.await.map_err(|e| format!("accept: {e:#}"))?;
+                    let r = iroh_docs::net::handle_connection(hr, conn, |_ns, _peer| std::future::ready(AcceptOutcome::Allow), None).await;
+                    r.map(|f| (f.outcome.num_recv as u64, f.outcome.num_sent as u64)).map_err(|e| format!("{e:#}"))
+                };
+                let hi = h_init.clone();
+                let ep_init2 = ep_init.clone();
+                let alice = async move {
+                    let r = iroh_docs::net::connect_and_sync(&ep_init2, &hi, nsid, addr, None).await;
+                    r.map(|f| (f.outcome.num_recv as u64, f.outcome.num_sent as u64)).map_err(|e| format!("{e:#}"))
+                };
+                let both = tokio::time::timeout(std::time::Duration::from_secs(60), async { tokio::join!(alice, bob) }).await;
+                ep_init.close().await;
+                ep_resp.close().await;
+                return match both {
+                    Ok((a, b)) => Ok((a, b)),
+                    Err(_) => Ok((Err("timeout".into()), Err("timeout".into()))),
+                };
+            }
             let (p1, p2) = tokio::io::duplex(1 << 22);
             let (mut r1, mut w1) = tokio::io::split(p1);
             let (mut r2, mut w2) = tokio::io::split(p2);
@@ -199,7 +244,7 @@ impl Property for C01 {
     }
     fn corpus(&self) -> Vec<(String, Vec<Op>)> {
         let p = |side: u8, a: usize, k: &[u8], c: Option<usize>, ts: u64| Op::Put { side, a, key: k.to_vec(), c, ts };
-        let cfg = |bob: bool| Op::Cfg { file_a: false, file_b: false, max_set: 1, split: 2, bob_initiates: bob, net: false };
+        let cfg = |bob: bool| Op::Cfg { file_a: false, file_b: false, max_set: 1, split: 2, bob_initiates: bob, net: false, quic: false };
         vec![
             // F1: a deletion marker newer than the peer's live entry below it
             ("f1-marker-vs-live-child".into(), vec![cfg(false), p(0, 0, b"a", None, 10), p(1, 0, b"ab", Some(0), 5)]),
@@ -218,6 +263,7 @@ impl Property for C01 {
             split: if default_cfg { 2 } else { *rng.pick(&[2usize, 3, 4, 5]) },
             bob_initiates: rng.chance(1, 2),
             net: rng.chance(1, 5),
+            quic: rng.chance(1, 3),
         }];
         let max = if thorough { 20 } else { 10 };
         let na = rng.range(0, max);
@@ -240,9 +286,9 @@ impl Property for C01 {
         ops
     }
     fn execute(&self, ops: &[Op]) -> anyhow::Result<Vec<Line>> {
-        let (file_a, file_b, max_set, split, bob_initiates, net) = match ops.first() {
-            Some(Op::Cfg { file_a, file_b, max_set, split, bob_initiates, net }) => (*file_a, *file_b, *max_set, *split, *bob_initiates, *net),
-            _ => (false, false, 1, 2, false, false),
+        let (file_a, file_b, max_set, split, bob_initiates, net, quic) = match ops.first() {
+            Some(Op::Cfg { file_a, file_b, max_set, split, bob_initiates, net, quic }) => (*file_a, *file_b, *max_set, *split, *bob_initiates, *net, *quic),
+            _ => (false, false, 1, 2, false, false, false),
         };
         let rt = rt();
         set_clock(NOW);
@@ -277,7 +323,7 @@ impl Property for C01 {
         lines.push(Line::model(format!("snap a 1 {nshex}"), "ok"));
         lines.push(Line::model(format!("snap b 2 {nshex}"), "ok"));
         if net {
-            return self.execute_net(sa, sb, nsid, &nshex, bob_initiates, lines);
+            return self.execute_net(sa, sb, nsid, &nshex, bob_initiates, quic, lines);
         }
         iroh_docs::verif::set_thread_sync_config(Some((max_set, split)));
         let budget = 4 * (n_a + n_b) + 8;
@@ -324,7 +370,10 @@ impl Property for C01 {
     }
     fn features(&self, ops: &[Op], lines: &[Line]) -> Vec<String> {
         let mut f = vec![];
-        if let Some(Op::Cfg { file_a, file_b, max_set, split, bob_initiates, net }) = ops.first() {
+        if let Some(Op::Cfg { file_a, file_b, max_set, split, bob_initiates, net, quic }) = ops.first() {
+            if *net && *quic {
+                f.push("driver:network-quic".into());
+            }
             if *net {
                 f.push("driver:network".into());
             }
